@@ -1091,7 +1091,6 @@ func c9RunStress(o *Out, rng *RNG, round int, procs int) {
 		oi   int
 	}
 	var wants []want
-	hasWriter := false
 	for i := 0; i < g; i++ {
 		r := rng.Fork()
 		gd := fmt.Sprintf("g%d", i)
@@ -1103,7 +1102,6 @@ func c9RunStress(o *Out, rng *RNG, round int, procs int) {
 				op = c9Op{Kind: "Write", P: shared[r.Intn(3)], Data: c9Val(tag), Tag: tag}
 			case 3:
 				op = c9Op{Kind: "Writer", P: shared[r.Intn(3)], Chunks: c9Chunks(r, c9Val(tag)), Tag: tag}
-				hasWriter = true
 			case 4, 5, 6:
 				op = c9Op{Kind: "Read", P: shared[r.Intn(3)]}
 			case 7:
@@ -1169,8 +1167,8 @@ func c9RunStress(o *Out, rng *RNG, round int, procs int) {
 	for i, l := range res {
 		for j, r := range l {
 			if r.Kind == "data" {
-				if len(r.Data) == 0 && hasWriter {
-					o.Stat("read_empty_during_writer_creation")
+				if len(r.Data) == 0 {
+					o.Fail("read_values", fmt.Sprintf("%s %s: a reader saw an empty content nobody wrote", progs[i][j].Kind, c9Path(progs[i][j].P)), "empty-read", hist(i, j))
 					continue
 				}
 				if !c9ValOK(r.Data) {
@@ -1193,7 +1191,7 @@ func c9RunStress(o *Out, rng *RNG, round int, procs int) {
 		}
 		names[k] = true
 		have[k] = e
-		if !e.IsDir && !c9ValOK(e.Data) && !(len(e.Data) == 0 && hasWriter) {
+		if !e.IsDir && !c9ValOK(e.Data) {
 			o.Fail("file_values", fmt.Sprintf("after the run %s holds %d bytes that are not a complete written value", k, len(e.Data)), "torn-file", desc)
 		}
 	}
@@ -1250,44 +1248,203 @@ func c9ListingProbe(o *Out, rng *RNG) {
 	o.Stat("listing_probes")
 }
 
-// c9WriterWindowProbe measures (no verdict) how often a concurrent ReadFile sees the EMPTY file that
-// Writer inserts before it takes the file's data lock (C09_writer_creation_window_refuted).
-func c9WriterWindowProbe(o *Out, n int) {
+// c9WriterWindow: targeted stress for the repaired creation window of Writer (288e3e2): many
+// rounds of Writer(new file) running against goroutines that poll ReadFile / Reader of that
+// path.  The first content a poller gets must be the whole value: an empty content was written
+// by nobody (C09_writer_creation_window_refuted is the model witness for the old order).
+func c9WriterWindow(o *Out, rng *RNG, rounds int, procs int) {
 	fs, err := memfs.NewFilespace()
 	must(err)
-	old := runtime.GOMAXPROCS(4)
+	old := runtime.GOMAXPROCS(procs)
 	defer runtime.GOMAXPROCS(old)
-	verifhook.SetCallback(func(string) { runtime.Gosched() })
-	defer verifhook.SetCallback(nil)
-	for i := 0; i < n; i++ {
-		p := fmt.Sprintf("w%d", i)
+	verifhook.SetCallback(nil)
+	pollers := 3
+	for i := 0; i < rounds; i++ {
+		p := fmt.Sprintf("w/%d", i)
+		tag := 7 + rng.Intn(240)
+		val := c9Val(tag)
 		var wg sync.WaitGroup
-		wg.Add(2)
-		empty := false
+		var bad int32
+		var badLen int32 = -1
+		startCh := make(chan struct{})
+		for k := 0; k < pollers; k++ {
+			wg.Add(1)
+			go func(k int) {
+				defer wg.Done()
+				<-startCh
+				for n := 0; n < 200000; n++ {
+					var d []byte
+					var err error
+					if k == 2 {
+						var rd filesystem.Reader
+						if rd, err = fs.Reader(p); err == nil {
+							buf := make([]byte, 600)
+							m, _ := rd.Read(buf)
+							d = buf[:m]
+							rd.Close()
+						}
+					} else {
+						d, err = fs.ReadFile(p)
+					}
+					if err == nil {
+						if string(d) != string(val) {
+							atomic.StoreInt32(&bad, 1)
+							atomic.StoreInt32(&badLen, int32(len(d)))
+						}
+						return
+					}
+					if procs == 1 || n%64 == 63 {
+						runtime.Gosched()
+					}
+				}
+			}(k)
+		}
+		wg.Add(1)
 		go func() {
 			defer wg.Done()
+			<-startCh
 			w, err := fs.Writer(p)
 			if err == nil {
-				w.Write(c9Val(9))
+				w.Write(val)
 				w.Close()
 			}
 		}()
-		go func() {
-			defer wg.Done()
-			for k := 0; k < 20000; k++ {
-				if d, err := fs.ReadFile(p); err == nil {
-					empty = len(d) == 0
-					return
-				}
-				runtime.Gosched()
+		close(startCh)
+		done := make(chan struct{})
+		go func() { wg.Wait(); close(done) }()
+		select {
+		case <-done:
+		case <-time.After(10 * time.Second):
+			o.Fail("no_hang", "Writer(new file) against polling readers did not finish within 10 s", "hang", map[string]interface{}{"kind": "writer-window", "round": i, "gomaxprocs": procs})
+			return
+		}
+		o.Stat("writer_window_rounds")
+		if atomic.LoadInt32(&bad) == 1 {
+			what := fmt.Sprintf("Writer(%s) on a new file against polling ReadFile/Reader: a reader saw %d bytes instead of the %d bytes written", p, atomic.LoadInt32(&badLen), len(val))
+			sig := "torn-read"
+			if atomic.LoadInt32(&badLen) == 0 {
+				what = fmt.Sprintf("Writer(%s) on a new file against polling ReadFile/Reader: a reader saw an empty content nobody wrote", p)
+				sig = "empty-read"
 			}
-		}()
-		wg.Wait()
-		if empty {
-			o.Stat("writer_window_empty_reads")
+			o.Fail("read_values", what, sig, map[string]interface{}{"kind": "writer-window", "round": i, "gomaxprocs": procs, "path": p, "tag": tag})
+			return
 		}
 	}
-	o.Stat("writer_window_probes")
+	o.CountEval(fmt.Sprintf("W:%d:%d", rounds, procs), true)
+}
+
+// c9CopyDuringSession: one goroutine keeps STREAM Writer sessions on a shared file open for a while
+// (Write part 1; yield / short sleep; Write part 2; Close; whole value = both parts) while other
+// goroutines Copy / CopyFile that file and CopyDirectory its parent to fresh destinations and read
+// the copies back.  Every copy must hold a complete written (or the initial) value, never a
+// prefix or the truncated (empty) content: copyFile has to wait for the session's data lock.
+func c9CopyDuringSession(o *Out, rng *RNG, sessions int, procs int) {
+	fs, err := memfs.NewFilespace()
+	must(err)
+	old := runtime.GOMAXPROCS(procs)
+	defer runtime.GOMAXPROCS(old)
+	verifhook.SetCallback(nil)
+	c9Exec(fs, c9Op{Kind: "Write", P: []string{"h", "f"}, Data: c9Val(1)})
+	seed := rng.Next()
+	var stop int32
+	var wg sync.WaitGroup
+	type bad struct {
+		what string
+		c    map[string]interface{}
+	}
+	var mu sync.Mutex
+	var found *bad
+	var checked int64
+	report := func(b *bad) {
+		mu.Lock()
+		if found == nil {
+			found = b
+		}
+		mu.Unlock()
+		atomic.StoreInt32(&stop, 1)
+	}
+	wg.Add(1)
+	go func() { // the session holder
+		defer wg.Done()
+		defer atomic.StoreInt32(&stop, 1)
+		r := NewRNG(seed)
+		for i := 0; i < sessions && atomic.LoadInt32(&stop) == 0; i++ {
+			v := c9Val(7 + r.Intn(240))
+			cut := 1 + r.Intn(len(v)-1)
+			w, err := fs.Writer("h/f")
+			if err != nil {
+				report(&bad{"Writer(h/f) failed: " + err.Error(), map[string]interface{}{"kind": "copy-during-session", "session": i}})
+				return
+			}
+			w.Write(v[:cut])
+			switch r.Intn(3) {
+			case 0:
+				runtime.Gosched()
+			case 1:
+				time.Sleep(time.Duration(5+r.Intn(40)) * time.Microsecond)
+			default:
+				for k := 0; k < 3; k++ {
+					runtime.Gosched()
+				}
+			}
+			w.Write(v[cut:])
+			w.Close()
+			if i%3 == 0 {
+				runtime.Gosched()
+			}
+		}
+	}()
+	for k := 0; k < 3; k++ {
+		wg.Add(1)
+		go func(k int) { // the copiers
+			defer wg.Done()
+			for n := 0; atomic.LoadInt32(&stop) == 0 && n < 1000000; n++ {
+				kind := []string{"Copy", "CopyFile", "CopyDir"}[(k+n)%3]
+				var res c9Res
+				var rd string
+				switch kind {
+				case "Copy", "CopyFile":
+					rd = fmt.Sprintf("c%d/%d", k, n)
+					res = c9Exec(fs, c9Op{Kind: kind, P: []string{"h", "f"}, Q: []string{fmt.Sprintf("c%d", k), fmt.Sprint(n)}})
+				default:
+					rd = fmt.Sprintf("c%d/%d/f", k, n)
+					res = c9Exec(fs, c9Op{Kind: "CopyDir", P: []string{"h"}, Q: []string{fmt.Sprintf("c%d", k), fmt.Sprint(n)}})
+				}
+				c := map[string]interface{}{"kind": "copy-during-session", "copy": kind, "copier": k, "n": n, "gomaxprocs": procs, "seed": seed}
+				if res.Kind != "ok" {
+					report(&bad{fmt.Sprintf("%s of h/f to a fresh destination failed (%s %s)", kind, res.Kind, res.Msg), c})
+					return
+				}
+				d, err := fs.ReadFile(rd)
+				if err != nil {
+					report(&bad{fmt.Sprintf("%s returned nil but %s cannot be read: %v", kind, rd, err), c})
+					return
+				}
+				if !c9ValOK(d) {
+					report(&bad{fmt.Sprintf("%s of h/f taken while a Writer session on it was open: the copy %s holds %d bytes (tag %d), a partly written value, not a complete written or initial value", kind, rd, len(d), c9TagOf(d)), c})
+					return
+				}
+				atomic.AddInt64(&checked, 1)
+				c9Exec(fs, c9Rm(true, fmt.Sprintf("c%d", k), fmt.Sprint(n))) // keep the directories small
+			}
+		}(k)
+	}
+	done := make(chan struct{})
+	go func() { wg.Wait(); close(done) }()
+	select {
+	case <-done:
+	case <-time.After(180 * time.Second):
+		atomic.StoreInt32(&stop, 1)
+		o.Fail("no_hang", "copies against an open Writer session did not finish within 180 s", "hang", map[string]interface{}{"kind": "copy-during-session", "gomaxprocs": procs})
+		return
+	}
+	o.Stat("session_copy_runs")
+	o.Stats["session_copies_checked"] += int(atomic.LoadInt64(&checked))
+	if found != nil {
+		o.Fail("copy_values", found.what, "torn-copy", found.c)
+		return
+	}
+	o.CountEval(fmt.Sprintf("CS:%d:%d:%d", sessions, procs, seed), true)
 }
 
 func runC09(o *Out, rng *RNG, tier string, replay string) {
@@ -1309,10 +1466,10 @@ func runC09(o *Out, rng *RNG, tier string, replay string) {
 	o.CaseType = "case"
 	o.CheckFn = "check"
 	o.ShardSize = 120
-	o.Rule = "(i) forced schedules through the verif yield points (the explicit F28 schedules for Remove/RemoveAll x 6 creators x 4 park orders, then random 2-3 thread programs with random park points), each compared with the Coq model run on the same schedule (results + final tree) and checked for serialisability; (ii) stress runs of 2-32 goroutines x 4-23 ops on 2 shared directories, 3 shared files and a private never-removed area, tagged values of 64-512 bytes, GOMAXPROCS 1/2/4/16, seeded yields in the hook callback: no panic, no hang (10 s), every read is a whole written value, listings have distinct names, the final walk succeeds and every file holds a whole value, every successful private-path creation is present with its value; (iii) small histories (2-3 threads x 1-2 ops, no handles) whose final tree must be explained by a sequential order of the successful operations respecting real-time precedence (Go plain tree + Coq acceptor). Non-trivial: at least one (forced) / two (small) successful mutations; distinct by programs+schedule / programs+results."
-	nForced, nSmall, nLarge := 300, 400, 40
+	o.Rule = "(i) forced schedules through the verif yield points (the explicit F28 schedules for Remove/RemoveAll x 6 creators x 4 park orders, then random 2-3 thread programs with random park points), each compared with the Coq model run on the same schedule (results + final tree) and checked for serialisability; (ii) stress runs of 2-32 goroutines x 4-23 ops on 2 shared directories, 3 shared files and a private never-removed area, tagged values of 64-512 bytes, GOMAXPROCS 1/2/4/16, seeded yields in the hook callback: no panic, no hang (10 s), every read is a whole written value, listings have distinct names, the final walk succeeds and every file holds a whole value, every successful private-path creation is present with its value; (iv) targeted stress of the Writer creation window (288e3e2): rounds of Writer(new file) against 3 goroutines polling ReadFile/Reader of that path, GOMAXPROCS 1/2/4/16 - the first content seen must be the whole value, an empty content is an oracle failure; (v) copies against open stream sessions: one goroutine keeps Writer sessions on a shared file open (Write part 1; yield/sleep; Write part 2; Close) while 3 goroutines Copy/CopyFile it and CopyDirectory its parent to fresh destinations and read the copies back - every copy must be a whole value, never a prefix; (iii) small histories (2-3 threads x 1-2 ops, no handles) whose final tree must be explained by a sequential order of the successful operations respecting real-time precedence (Go plain tree + Coq acceptor). Non-trivial: at least one (forced) / two (small) successful mutations; distinct by programs+schedule / programs+results."
+	nForced, nSmall, nLarge, nWindow, nSess := 300, 400, 40, 1500, 400
 	if tier == "thorough" {
-		nForced, nSmall, nLarge = 1500, 10000, 1000
+		nForced, nSmall, nLarge, nWindow, nSess = 1500, 10000, 1000, 20000, 4000
 	}
 	for _, f := range c9F28Cases() {
 		c9RunForced(f)
@@ -1326,7 +1483,10 @@ func runC09(o *Out, rng *RNG, tier string, replay string) {
 	for i := 0; i < 20; i++ {
 		c9ListingProbe(o, rng.Fork())
 	}
-	c9WriterWindowProbe(o, nSmall)
+	for _, pr := range []int{1, 2, 4, 16} {
+		c9WriterWindow(o, rng.Fork(), nWindow, pr)
+		c9CopyDuringSession(o, rng.Fork(), nSess, pr)
+	}
 	procs := []int{1, 2, 4, 16}
 	for i := 0; i < nSmall; i++ {
 		c9RunSmall(o, rng.Fork(), procs[i%4])
